@@ -1,3 +1,7 @@
 // R21 targets (VERIFIED helpers): std::cmp::max / min on usize
-pub fn usize_max(a: usize, b: usize) -> (r: usize) ensures r == (if a >= b { a } else { b }) { if a >= b { a } else { b } }
-pub fn usize_min(a: usize, b: usize) -> (r: usize) ensures r == (if a <= b { a } else { b }) { if a <= b { a } else { b } }
+pub fn usize_max(a: usize, b: usize) -> (r: usize)
+	ensures r == (if a >= b { a } else { b }),
+{ if a >= b { a } else { b } }
+pub fn usize_min(a: usize, b: usize) -> (r: usize)
+	ensures r == (if a <= b { a } else { b }),
+{ if a <= b { a } else { b } }
